@@ -161,12 +161,12 @@ check('C12',
       '(incl. explicit reduction_axes), InstanceNorm, variance >= 0 under a '
       'round-off model of the means, Dropout, avg/max/min pool (explicit pads, 0..3 '
       'batch dims), Conv 1-D (SAME/VALID/CIRCULAR/REFLECT/CAUSAL/explicit, stride, '
-      'kernel/input dilation, groups), nnx.LoRA / LoRALinear, ConvTranspose 1-D (SAME/VALID/explicit vs a '
+      'kernel/input dilation, groups), ConvLocal 1-D, nnx.LoRA / LoRALinear, ConvTranspose 1-D (SAME/VALID/explicit vs a '
       'scatter sum; CIRCULAR periodicity and transpose-of-Conv) equal an independent reference for '
       'every value of every element/parameter/index at each instantiated '
       'configuration; NNX layer == Linen layer on shared parameters.',
       'Floats treated as reals; rsqrt uninterpreted with its defining axiom; '
-      'configurations beyond the grid, ConvLocal/fp8 NOT covered; shim '
+      'configurations beyond the grid and fp8 layers NOT covered; shim '
       'validated per run against real jax.',
       ENGC, 'DESIGN.md §4 C12')
 check('C13',
